@@ -20,6 +20,7 @@ pub mod adapt {
             (*self.inner).remaining().take(min_nat(self.limit as nat, (*self.inner).remaining().len()) as int)
         }
         open spec fn reliable(&self) -> bool { (*self.inner).reliable() }
+        open spec fn greedy(&self) -> bool { false }
         #[verifier::prophetic]
         open spec fn src_eq(&self, o: &Self) -> bool {
             &&& mut_ref_future(self.inner) == mut_ref_future(o.inner) && (*self.inner).src_eq(&*o.inner)
@@ -101,6 +102,7 @@ pub mod adapt {
     impl<'a, R: std::io::Read> crate::ReadSpecImpl for &'a mut R {
         open spec fn remaining(&self) -> Seq<u8> { (**self).remaining() }
         open spec fn reliable(&self) -> bool { (**self).reliable() }
+        open spec fn greedy(&self) -> bool { (**self).greedy() }
         #[verifier::prophetic]
         open spec fn src_eq(&self, o: &Self) -> bool {
             mut_ref_future(*self) == mut_ref_future(*o) && (**self).src_eq(&**o)
@@ -128,6 +130,7 @@ pub mod adapt {
     impl<R: std::io::Read> crate::ReadSpecImpl for BufReaderShim<R> {
         open spec fn remaining(&self) -> Seq<u8> { self.pending() + self.inner.remaining() }
         open spec fn reliable(&self) -> bool { self.inner.reliable() }
+        open spec fn greedy(&self) -> bool { false }
         #[verifier::prophetic]
         open spec fn src_eq(&self, o: &Self) -> bool {
             &&& self.inner.src_eq(&o.inner) && self.inner.reliable() == o.inner.reliable()
@@ -199,7 +202,83 @@ pub mod adapt {
     impl<'a> crate::ReadSpecImpl for &'a [u8] {
         open spec fn remaining(&self) -> Seq<u8> { (*self)@ }
         open spec fn reliable(&self) -> bool { true }
+        open spec fn greedy(&self) -> bool { true }
         #[verifier::prophetic]
         open spec fn src_eq(&self, o: &Self) -> bool { is_suffix((*self)@, (*o)@) }
+    }
+
+    // ---- std::io::Cursor over a byte slice, used as a reader (rewrite rule R17) --------------------
+    // std: reads from get_ref()[position..], never fails, hands over as much as fits, and moves the
+    // position by exactly that amount.  The bodies below are verified against the Read / BufRead contracts.
+    pub struct SliceCursor<'a> { pub data: &'a [u8], pub pos: u64 }
+
+    impl<'a> SliceCursor<'a> {
+        pub fn new(data: &'a [u8]) -> (r: Self)
+            ensures r.data == data, r.pos == 0,
+        {
+            SliceCursor { data, pos: 0 }
+        }
+        pub open spec fn rem(&self) -> Seq<u8> {
+            if self.pos <= self.data@.len() { self.data@.skip(self.pos as int) } else { Seq::<u8>::empty() }
+        }
+        pub fn position(&self) -> (r: u64)
+            ensures r == self.pos,
+        {
+            self.pos
+        }
+        pub fn set_position(&mut self, pos: u64)
+            ensures final(self).pos == pos, final(self).data == old(self).data,
+        {
+            self.pos = pos;
+        }
+    }
+    impl<'a> crate::ReadSpecImpl for SliceCursor<'a> {
+        open spec fn remaining(&self) -> Seq<u8> { self.rem() }
+        open spec fn reliable(&self) -> bool { true }
+        open spec fn greedy(&self) -> bool { true }
+        #[verifier::prophetic]
+        open spec fn src_eq(&self, o: &Self) -> bool {
+            self.data@ == o.data@ && (o.pos <= o.data@.len() ==> self.pos <= self.data@.len())
+        }
+    }
+    impl<'a> crate::BufReadSpecImpl for SliceCursor<'a> {
+        open spec fn buffered(&self) -> nat { self.rem().len() }
+    }
+    impl<'a> std::io::Read for SliceCursor<'a> {
+        fn read(&mut self, buf: &mut [u8]) -> (r: std::io::Result<usize>)
+        {
+            let len = self.data.len();
+            let start: usize = if self.pos < len as u64 { self.pos as usize } else { len };
+            let avail = len - start;
+            let n = if buf.len() < avail { buf.len() } else { avail };
+            let ghost buf0 = buf@;
+            let ghost rem0 = self.rem();
+            proof { assert(rem0 =~= self.data@.skip(start as int)); }
+            buf[..n].copy_from_slice(&self.data[start..start + n]);
+            if n > 0 { self.pos = self.pos + n as u64; }
+            proof {
+                assert(buf@.take(n as int) =~= rem0.take(n as int));
+                assert(buf@.skip(n as int) =~= buf0.skip(n as int));
+                assert(self.rem() =~= rem0.skip(n as int));
+            }
+            Ok(n)
+        }
+    }
+    impl<'a> std::io::BufRead for SliceCursor<'a> {
+        fn fill_buf(&mut self) -> (r: std::io::Result<&[u8]>)
+        {
+            let len = self.data.len();
+            let start: usize = if self.pos < len as u64 { self.pos as usize } else { len };
+            let res = &self.data[start..];
+            proof { assert(res@ =~= self.rem()); }
+            Ok(res)
+        }
+        fn consume(&mut self, amt: usize)
+        {
+            let ghost rem0 = self.rem();
+            proof { assert(self.data@.len() == self.data.len()); }
+            self.pos = self.pos + amt as u64;
+            proof { assert(self.rem() =~= rem0.skip(amt as int)); }
+        }
     }
 }
